@@ -276,6 +276,85 @@ def _install_failpoint(fp):
 
     builtins.open = proxy_open
 
+_LINE_FP = {}
+
+
+def _install_line_failpoint(fp, afd):
+    """fp = {"kind": "line", "action": "kill" | "interrupt" | "count", "nth": n, "arm": [...argv0 basenames...]}
+    Source-free failpoint at statement granularity (sys.monitoring LINE events): once the process has
+    issued its first command whose basename is in `arm` (empty = armed from the start), every statement
+    executed in gwf's own source files is counted; at the n-th one the process is killed (`kill`), or a
+    KeyboardInterrupt is raised there as a Ctrl-C would (`interrupt`).  The site is written to the audit
+    journal first ({"ev": "linefp", ...}); the total count is written at process end ({"ev": "linecount"})."""
+    mon = sys.monitoring
+    tool = mon.PROFILER_ID
+    try:
+        mon.use_tool_id(tool, "verif-linefp")
+    except ValueError:
+        pass
+    st = {"n": 0, "armed": not fp.get("arm"), "fired": False, "afd": afd, "sites": set()}
+    _LINE_FP.update(st=st, fp=fp)
+    pid = os.getpid()
+    src = GWF_SRC + os.sep
+
+    def on_line(code, line):
+        if not code.co_filename.startswith(src):
+            return mon.DISABLE
+        if st["fired"] or os.getpid() != pid:
+            return None
+        st["n"] += 1
+        if st["n"] == fp.get("nth") and fp.get("action") in ("kill", "interrupt"):
+            st["fired"] = True
+            rec = {"ev": "linefp", "action": fp["action"], "file": code.co_filename[len(src):], "line": line, "func": code.co_name, "n": st["n"]}
+            try:
+                os.write(afd, (json.dumps(rec) + "\n").encode())
+            except Exception:
+                pass
+            if fp["action"] == "kill":
+                os._exit(137)
+            mon.set_events(tool, 0)
+            raise KeyboardInterrupt()
+        return None
+
+    mon.register_callback(tool, mon.events.LINE, on_line)
+
+    def arm():
+        if not st["armed"]:
+            st["armed"] = True
+            mon.set_events(tool, mon.events.LINE)
+
+    if st["armed"]:
+        mon.set_events(tool, mon.events.LINE)
+    elif fp["arm"] == "socket.connect":
+
+        def hook(event, args):
+            if event == "socket.connect" and not st["armed"] and os.getpid() == pid:
+                arm()
+
+        sys.addaudithook(hook)
+    else:
+        names = set(fp["arm"])
+
+        def hook(event, args):
+            if event == "subprocess.Popen" and not st["armed"] and os.getpid() == pid:
+                try:
+                    a0 = os.path.basename(str(args[1][0]))
+                except Exception:
+                    return
+                if a0 in names:
+                    arm()
+
+        sys.addaudithook(hook)
+
+
+def _line_fp_report():
+    st = _LINE_FP.get("st")
+    if st:
+        try:
+            os.write(st["afd"], (json.dumps({"ev": "linecount", "n": st["n"], "fired": st["fired"], "armed": st["armed"]}) + "\n").encode())
+        except Exception:
+            pass
+
 
 def run_gwf(
     args,
@@ -341,11 +420,15 @@ def run_gwf(
                 _install_fs_killpoint(failpoint)
             elif failpoint and failpoint.get("kind") == "kill_after_replace":
                 _install_kill_after_replace(failpoint)
+            elif failpoint and failpoint.get("kind") == "line":
+                pass  # installed below (needs the audit journal)
             elif failpoint:
                 _install_failpoint(failpoint)
-            if audit:
+            if audit or (failpoint and failpoint.get("kind") == "line"):
                 afd = os.open(audp, os.O_WRONLY | os.O_CREAT | os.O_APPEND)
                 _install_audit(afd, utime_delay)
+            if failpoint and failpoint.get("kind") == "line":
+                _install_line_failpoint(failpoint, afd)
             import gwf.cli
 
             try:
@@ -368,6 +451,7 @@ def run_gwf(
                 sys.stderr.flush()
             except BaseException:
                 pass
+            _line_fp_report()
             os._exit(rc & 0xFF)
 
     # parent
